@@ -4,12 +4,19 @@ package recordstore
 
 import (
 	"fmt"
+	"os"
+	"path/filepath"
+	"regexp"
+	"sort"
 	"strings"
 	"testing"
 	"time"
 
+	"github.com/bluenviron/mediamtx/internal/conf"
 	"github.com/bluenviron/mediamtx/internal/verifutil"
 )
+
+const verifC26Root = "/tmp/vc26t"
 
 // ---- helpers shared by Exec and Gen -------------------------------------------------------------
 
@@ -83,6 +90,16 @@ func (tb verifC26Table) String() string {
 	return strings.Join(ks, ";")
 }
 
+// instant column: "<unix µs>" or "<unix µs>.<extra ns 000..999>" (NTP-derived starts are not whole microseconds)
+func verifC26Instant2(col string) time.Time {
+	p := strings.SplitN(col, ".", 2)
+	t := time.UnixMicro(verifutil.AtoI64(p[0]))
+	if len(p) == 2 {
+		t = t.Add(time.Duration(verifutil.Atoi(p[1])))
+	}
+	return t
+}
+
 func verifC26Dec(format, cand string) string {
 	var p Path
 	if !p.Decode(format, cand) {
@@ -102,11 +119,62 @@ func verifC26Exec(op string) string {
 		// rt <zone> <tloc> <fmt> <path> <us> | oracle columns …
 		verifC26SetLocal(f[1])
 		format, name := verifutil.UnHexS(f[3]), verifutil.UnHexS(f[4])
-		t := verifC26In(time.UnixMicro(verifutil.AtoI64(f[5])), f[2])
+		t := verifC26In(verifC26Instant2(f[5]), f[2])
 		// what the recorder does (recorder_instance.go initialize + segment creation)
 		format2 := strings.ReplaceAll(format, "%path", name)
 		n2 := Path{Start: t}.Encode(format2)
 		return verifutil.HexS(n2) + " " + verifC26Dec(format, n2) + " " + verifC26Dec(format2, n2)
+	case "flow":
+		// flow <zone> <tloc> <fmt> <path> <instant> <fileRelHex> | oracle | table
+		// the recorder's file on disk, then the three real finder flows
+		verifC26SetLocal(f[1])
+		format, name := verifutil.UnHexS(f[3]), verifutil.UnHexS(f[4])
+		os.RemoveAll(verifC26Root)
+		if err := os.MkdirAll(verifC26Root, 0o755); err != nil {
+			panic(err)
+		}
+		wd, _ := os.Getwd()
+		defer func() { os.Chdir(wd); os.RemoveAll(verifC26Root) }() //nolint:errcheck
+		if err := os.Chdir(verifC26Root); err != nil {
+			panic(err)
+		}
+		t := verifC26In(verifC26Instant2(f[5]), f[2])
+		// recorder_instance.go: pathFormat2 = PathAddExtension(ReplaceAll(pathFormat, "%path", pathName)); Encode; MkdirAll; Create
+		rec := Path{Start: t}.Encode(PathAddExtension(strings.ReplaceAll(format, "%path", name), conf.RecordFormatFMP4))
+		full, _ := filepath.Abs(rec)
+		if full != filepath.Join(verifC26Root, verifutil.UnHexS(f[6])) || !strings.HasPrefix(full, verifC26Root+"/") {
+			return "recorder-file-differs " + verifutil.HexS(full)
+		}
+		if err := os.MkdirAll(filepath.Dir(rec), 0o755); err != nil {
+			return "mkdir-failed"
+		}
+		if err := os.WriteFile(rec, []byte("x"), 0o644); err != nil {
+			return "create-failed"
+		}
+		seg := "none"
+		segs, err := FindSegments(&conf.Path{Name: "all_others", Regexp: regexp.MustCompile("^.*$"), RecordPath: format}, name, nil, nil)
+		switch {
+		case err != nil && strings.Contains(err.Error(), "invalid path name"):
+			seg = "err"
+		case err == nil && len(segs) == 1:
+			seg = fmt.Sprint(segs[0].Start.UnixMicro())
+		case err == nil:
+			seg = fmt.Sprintf("many%d", len(segs))
+		}
+		fixed := "0"
+		if fixedPathHasSegments(&conf.Path{Name: name, RecordPath: format}) {
+			fixed = "1"
+		}
+		var names []string
+		for n := range regexpPathFindPathsWithSegments(&conf.Path{Name: "all_others", Regexp: regexp.MustCompile("^.*$"), RecordPath: format}) {
+			names = append(names, verifutil.HexS(n))
+		}
+		sort.Strings(names)
+		rx := "-"
+		if len(names) > 0 {
+			rx = strings.Join(names, ",")
+		}
+		return "seg=" + seg + " fixed=" + fixed + " rx=" + rx
 	case "dec", "dect":
 		verifC26SetLocal(f[1])
 		var p Path
@@ -346,13 +414,48 @@ func verifC26Gen(r *verifutil.Rand, i int, thorough bool) []string {
 		name = r.Pick("", "a\nb", "a%b", "%path", "%Y", "a b", "é")
 	}
 	us := verifC26Instant(r, zone)
+	// sub-microsecond part, and both ends of a second
+	usCol := fmt.Sprint(us)
+	if r.Chance(1, 2) {
+		if r.Chance(1, 2) {
+			us = us - ((us%1000000)+1000000)%1000000 + []int64{999999, 0, 999998, 1, 500000, 499999}[r.Intn(6)]
+		}
+		usCol = fmt.Sprintf("%d.%03d", us, []int{0, 1, 499, 500, 501, 999, 998}[r.Intn(7)])
+	}
 	tloc := verifC26Tloc(r)
-	t := verifC26In(time.UnixMicro(us), tloc)
+	t := verifC26In(verifC26Instant2(usCol), tloc)
 
 	tb := verifC26Table{}
 	tb.addTime(t)
-	ops := []string{"reset", fmt.Sprintf("rt %s %s %s %s %d | %s | %s", zone, tloc, verifutil.HexS(format), verifutil.HexS(name), us,
+	ops := []string{"reset", fmt.Sprintf("rt %s %s %s %s %s | %s | %s", zone, tloc, verifutil.HexS(format), verifutil.HexS(name), usCol,
 		verifC26Oracle(t), tb.String())}
+
+	// the same round trip through the file system and the real finder flows (FindSegments, fixedPathHasSegments,
+	// regexpPathFindPathsWithSegments), with path names that are valid but not in Clean form
+	if !strings.Contains(format, "\\") && r.Chance(1, 2) {
+		fname := name
+		if r.Chance(1, 3) {
+			fname = r.Pick("cams//front", "a///b", "a//b/c", "x//y.z//w", "cam1", "live/a", "a.b/c-d", "...", "..a/b..")
+		}
+		fformat := format
+		if strings.HasPrefix(fformat, "/") {
+			fformat = verifC26Root + fformat
+		}
+		rec := Path{Start: t}.Encode(PathAddExtension(strings.ReplaceAll(fformat, "%path", fname), conf.RecordFormatFMP4))
+		full := rec
+		if !filepath.IsAbs(rec) {
+			full = filepath.Join(verifC26Root, rec)
+		}
+		full = filepath.Clean(full)
+		ok := strings.HasPrefix(full, verifC26Root+"/") && !strings.ContainsRune(full, 0) && len(full) < 3000
+		for _, comp := range strings.Split(full, "/") {
+			ok = ok && len(comp) < 250
+		}
+		if ok {
+			ops = append(ops, fmt.Sprintf("flow %s %s %s %s %s %s | %s | %s", zone, tloc, verifutil.HexS(fformat), verifutil.HexS(fname), usCol,
+				verifutil.HexS(strings.TrimPrefix(full, verifC26Root+"/")), verifC26Oracle(t), tb.String()))
+		}
+	}
 
 	// hostile candidates derived from real names
 	us2 := verifC26Instant(r, zone)
@@ -395,6 +498,11 @@ func TestVerifC26(t *testing.T) {
 					return "rt/" + strings.SplitN(a[1], ":", 2)[0] + "-" + strings.SplitN(a[2], ":", 2)[0]
 				}
 				return "rt/" + a[0]
+			case "flow":
+				if strings.HasPrefix(a[0], "seg=") && len(a[0]) > 4 && (a[0][4] == '-' || (a[0][4] >= '0' && a[0][4] <= '9')) {
+					return "flow/seg=instant"
+				}
+				return "flow/" + a[0]
 			case "dec":
 				return "dec/" + a[0]
 			case "dect":
